@@ -86,8 +86,12 @@ fn judge<T: LFloat>(cx: &mut Ctx, case: &Case) {
                     if ok {
                         if !oracle::is_correctly_rounded(k, &x, abs) {
                             bump(&mut cx.counts, "lossy-off-by-one");
+                            if oracle::is_correctly_rounded(k, &x, 0) || oracle::is_correctly_rounded(k, &x, k.inf_bits()) {
+                                // allowed by the one-step clause; counted so that a drift is visible in the evidence
+                                bump(&mut cx.counts, "lossy-neighbour-of-a-zero-or-infinite-result");
+                            }
                             // results that are zero / infinity when correctly rounded must be unchanged
-                            let exact_class = oracle::is_correctly_rounded(k, &x, 0) || oracle::is_correctly_rounded(k, &x, k.inf_bits());
+                            let exact_class = oracle::clearly_zero(k, &x) || oracle::clearly_inf(k, &x);
                             if exact_class {
                                 // zero / infinity must be unchanged
                                 Some("lossy-zero-inf")
